@@ -309,6 +309,7 @@ std::string run_case(const std::vector<std::string>& w)
    bool useGroups = false;
    std::string prog = "prog", fileContent, envContent, line;
    bool haveFile = false, haveEnv = false, haveLine = false, wantOut = false;
+   std::vector<int> defOrder;
    std::vector<std::string> argvWords;
    for (size_t t = 1; t < w.size(); ++t)
    {
@@ -328,6 +329,7 @@ std::string run_case(const std::vector<std::string>& w)
       else if (tok.rfind("argv:", 0) == 0) { for (auto& x : vf::split(tok.substr(5), ',')) argvWords.push_back(vf::unhexs(x)); }
       else if (tok.rfind("line:", 0) == 0) { haveLine = true; line = vf::unhexs(tok.substr(5)); }
       else if (tok == "out:usage") wantOut = true;
+      else if (tok.rfind("order:", 0) == 0) { for (auto& x : vf::split(tok.substr(6), ',')) defOrder.push_back(std::stoi(x)); }
    }
    // private HOME for the argument file; environment variable named after the program
    const char* workdir = ::getenv("VERIF_WORK");
@@ -352,8 +354,11 @@ std::string run_case(const std::vector<std::string>& w)
    try
    {
       if (useGroups) pa::Groups::reset();
-      for (auto& m : members)
-      {
+      // the handlers are created in the order of the configuration; the arguments are defined member by member,
+      // or - with "order:<member>,<member>,..." - in the given interleaving (each entry defines the next argument
+      // of that member) after all handlers were created
+      std::vector<pa::Handler*> hs;
+      auto create = [&](Member& m) {
          pa::Handler* h;
          if (useGroups)
          {
@@ -366,23 +371,25 @@ std::string run_case(const std::vector<std::string>& w)
             h = owned.back().get();
             single = h;
          }
-         for (auto& a : m.args)
+         hs.push_back(h);
+      };
+      auto define = [&](pa::Handler* h, const std::string& a) {
+         // arg:<keyspec>:<slot>:<opts>
+         const size_t p1 = a.find(':', 4);
+         const size_t p2 = a.find(':', p1 + 1);
+         const std::string keyspec = a.substr(4, p1 - 4);
+         const std::string slot = a.substr(p1 + 1, p2 == std::string::npos ? std::string::npos : p2 - p1 - 1);
+         auto opts = p2 == std::string::npos ? std::vector<std::string>() : vf::split(a.substr(p2 + 1), '/');
+         std::string desc = "description of " + slot;
+         for (auto& o : opts)
          {
-            // arg:<keyspec>:<slot>:<opts>
-            const size_t p1 = a.find(':', 4);
-            const size_t p2 = a.find(':', p1 + 1);
-            const std::string keyspec = a.substr(4, p1 - 4);
-            const std::string slot = a.substr(p1 + 1, p2 == std::string::npos ? std::string::npos : p2 - p1 - 1);
-            auto opts = p2 == std::string::npos ? std::vector<std::string>() : vf::split(a.substr(p2 + 1), '/');
-            std::string desc = "description of " + slot;
-            for (auto& o : opts)
-            {
-               if (o.rfind("init=", 0) == 0) initSlot(S, slot, vf::split(o.substr(5), '~'));
-               if (o.rfind("desc=", 0) == 0) desc = vf::unhexs(o.substr(5));
-            }
-            TypedArgBase* ta = h->addArgument(keyspec, bindSlot(S, slot), desc);
-            for (auto& o : opts) applyOption(ta, slot, o);
+            if (o.rfind("init=", 0) == 0) initSlot(S, slot, vf::split(o.substr(5), '~'));
+            if (o.rfind("desc=", 0) == 0) desc = vf::unhexs(o.substr(5));
          }
+         TypedArgBase* ta = h->addArgument(keyspec, bindSlot(S, slot), desc);
+         for (auto& o : opts) applyOption(ta, slot, o);
+      };
+      auto constrain = [&](pa::Handler* h, Member& m) {
          for (auto& c : m.cons)
          {
             auto p = vf::split(c, ':');
@@ -393,6 +400,29 @@ std::string run_case(const std::vector<std::string>& w)
             else if (p.at(1) == "differ") h->addConstraint(pa::differ(spec));
             else if (p.at(1) == "disjoint") h->addConstraint(pa::disjoint(spec));
             else throw std::invalid_argument("constraint type");
+         }
+      };
+      if (defOrder.empty())
+      {
+         for (auto& m : members)
+         {
+            create(m);
+            for (auto& a : m.args) define(hs.back(), a);
+            constrain(hs.back(), m);
+         }
+      } else
+      {
+         for (auto& m : members) create(m);
+         std::vector<size_t> nextArg(members.size(), 0);
+         for (int mi : defOrder)
+         {
+            Member& m = members.at(static_cast<size_t>(mi));
+            define(hs.at(static_cast<size_t>(mi)), m.args.at(nextArg[mi]++));
+         }
+         for (size_t mi = 0; mi < members.size(); ++mi)
+         {
+            while (nextArg[mi] < members[mi].args.size()) define(hs[mi], members[mi].args[nextArg[mi]++]);
+            constrain(hs[mi], members[mi]);
          }
       }
    } catch (const std::exception& e)
